@@ -224,7 +224,7 @@ def run_property(prop, tier='quick', seed=0, budget=None, only=None, jobs=None, 
 
     # ---- triage -------------------------------------------------------------------
     by_id = {o['id']: o for o in obs}
-    violations, harness_errors, inconclusive, confirmed = [], [], [], []
+    violations, harness_errors, inconclusive, confirmed, known_covered = [], [], [], [], []
     rjobs, wit_jobs = [], []
     for oid, r in results.items():
         st = r.get('status')
@@ -239,6 +239,9 @@ def run_property(prop, tier='quick', seed=0, budget=None, only=None, jobs=None, 
                 j = Job('witness', replay_spec(ob, r['example']), cap=60)
                 j.ob, j.r = ob, r
                 wit_jobs.append(j)
+        elif st == 'VACUOUS' and ob.get('regions'):
+            # the whole obligation lies inside a listed, still-reproducing known-finding region
+            known_covered.append(oid)
         elif st in ('ERROR', 'VACUOUS'):
             harness_errors.append((oid, st + ': ' + (r.get('detail') or '') + ' ' + (r.get('trace') or '')[-600:]))
         else:
@@ -291,7 +294,7 @@ def run_property(prop, tier='quick', seed=0, budget=None, only=None, jobs=None, 
         say('  obligation=%s %s args=%s' % (oid, detail, json.dumps(args)))
     wall = time.time() - t_start
     discharged = len(confirmed)
-    total = len(obs)
+    total = len(obs) - len(known_covered)
     paths = sum((r.get('paths') or 0) for r in results.values())
     samples = []
     for oid in (confirmed[:2] + [v[0] for v in violations[:1]] + inconclusive[:1]):
@@ -308,6 +311,7 @@ def run_property(prop, tier='quick', seed=0, budget=None, only=None, jobs=None, 
                            'the assertion (and at least one path completed). ' + getattr(mod, 'EXPLANATION', ''),
             'obligations': total, 'discharged': discharged, 'inconclusive': len(inconclusive),
             'not_run': len(not_run), 'refuted_replayed': len(violations),
+            'inside_known_finding_region': len(known_covered), 'inside_known_finding_region_ids': sorted(known_covered)[:60],
             'known_findings_live': [e['id'] for e in known_live],
             'known_findings_stale': [e['id'] for e in known_stale],
             'paths': paths, 'evaluations': paths,
